@@ -43,6 +43,8 @@ for _h in _c06.HARNESSES:
         import copy as _copy
         _g = _copy.copy(_h); _g.name = _h.name + '_refs'; _g.file = '../C06/h_susp.c'; _g.note = _h.note + ' (reference part: suspend takes +2 on the first suspension, the last resume hands it to the wakeup or releases it, exactly once)'
         HARNESSES.append(_g)
+# a tier-S lemma for the timer heap's reference on the owner source (experiments/h_timer_refs.c: real _dispatch_timer_unote_resume from an arbitrary timer record) is NOT registered: no verdict in 5 min even with the
+# heap index and clock case-split (out of memory with them symbolic); C17_m5 stays missed
 # tier Q for the race of two first dispatch_queue_set_specific calls (experiments/h_spec_q_tierQ.c) is NOT registered: with the loops unwound far enough cbmc runs out of 25 GB (object table + TAILQ walk + lock loops in resumable form); C17_m6 stays missed
 ASSUMPTIONS = ['tier H with real reference counting and disposal (_os_object_retain/release*, _dispatch_xref_dispose, _dispatch_dispose, _dispatch_lane_class_dispose) and the harness object table (bounds + liveness on every heap access: a use after free is an assertion failure)',
                'X = dispatch_release of the client reference, at most once per queue; the finalizer/context are set through dispatch_set_context / dispatch_set_finalizer_f, queue-specific data through dispatch_queue_set_specific',
